@@ -27,38 +27,31 @@ TABLE = os.path.join(os.path.dirname(os.path.dirname(os.path.abspath(__file__)))
 # ---- reviewed list of callees with panicking preconditions -----------------
 # (regex on declared or resolved callee path) -> class
 PANIC_CALLEES = [
-    (r"^(core|std)::panicking::(panic|panic_fmt|panic_display|panic_str|panic_nounwind|unreachable_display|panic_explicit|assert_failed|assert_matches_failed|panic_const::.*|panic_bounds_check|panic_in_cleanup)$", "explicit"),
+    (r"^(core|std)::panicking::(panic|panic_fmt|panic_display|panic_str|panic_nounwind|unreachable_display|panic_explicit|assert_failed|assert_matches_failed|panic_const::.*|panic_bounds_check|panic_in_cleanup|begin_panic)$", "explicit"),
     (r"^std::rt::(begin_panic|panic_fmt)$", "explicit"),
-    (r"^(core|std)::(option::)?Option::<T>::(unwrap|expect)$", "unwrap"),
-    (r"^(core|std)::(option|result)::(unwrap_failed|expect_failed)$", "explicit"),
-    (r"^(core|std)::(result::)?Result::<T, E>::(unwrap|expect|unwrap_err|expect_err)$", "unwrap"),
-    (r"^(core|std)::ops::(Index|IndexMut)::(index|index_mut)$", "index"),
-    (r"^(core|std)::slice::index::<impl .*>::(index|index_mut)$", "index"),
-    (r"^<.* as (core|std)::ops::(Index|IndexMut)<.*>>::(index|index_mut)$", "index"),
-    (r"^core::slice::<impl \[T\]>::(split_at|split_at_mut|copy_from_slice|clone_from_slice|swap|copy_within|rotate_left|rotate_right|chunks|chunks_mut|chunks_exact|chunks_exact_mut|windows|rchunks|split_first_chunk|select_nth_unstable|as_chunks)$", "index"),
+    (r"^core::option::Option::<T>::(unwrap|expect)$", "unwrap"),
+    (r"^core::(option|result)::(unwrap_failed|expect_failed)$", "explicit"),
+    (r"^core::result::Result::<T, E>::(unwrap|expect|unwrap_err|expect_err)$", "unwrap"),
+    (r"ops::index::(Index|IndexMut)(<.*>)?(>)?::(index|index_mut)$", "index"),
+    (r"<impl core::ops::index::(Index|IndexMut)<I> for .*>::(index|index_mut)$", "index"),
+    (r"^core::slice::<impl \[T\]>::(split_at|split_at_mut|copy_from_slice|clone_from_slice|swap|copy_within|rotate_left|rotate_right|chunks|chunks_mut|chunks_exact|chunks_exact_mut|windows|rchunks|select_nth_unstable|as_chunks)$", "index"),
     (r"^core::str::<impl str>::(split_at|split_at_mut)$", "index"),
-    (r"^(alloc|std)::vec::Vec::<T, A>::(remove|insert|swap_remove|drain|split_off|truncate_front|extend_from_within|splice)$", "index"),
-    (r"^(alloc|std)::collections::(vec_deque::)?VecDeque::<T, A>::(remove|insert|swap|drain|split_off|range|range_mut)$", "index"),
-    (r"^(alloc|std)::string::String::(remove|insert|insert_str|drain|split_off|replace_range|truncate)$", "index"),
-    (r"^tinyvec::(arrayvec::)?ArrayVec::<A>::(push|insert|remove|swap_remove|drain|split_off|extend_from_slice|set_len|resize|resize_with|splice|from_array_len)$", "index"),
-    (r"^tinyvec::(tinyvec::)?TinyVec::<A>::(remove|swap_remove|drain|split_off|insert|splice)$", "index"),
-    (r"^<tinyvec::ArrayVec<A> as std::iter::(FromIterator|Extend)<.*>>::(from_iter|extend)$", "index"),
-    (r"^(core|std)::iter::Iterator::step_by$", "div"),
-    (r"^(core|std)::char::(from_digit)$", "explicit"),
-    (r"^(core|std)::num::<impl [a-z0-9]+>::(from_str_radix|pow|abs|div_euclid|rem_euclid|ilog|ilog2|ilog10|next_power_of_two|div_ceil|next_multiple_of|strict_.*)$", "arith"),
-    (r"^<std::time::(Instant|SystemTime) as std::ops::(Add|Sub|AddAssign|SubAssign)<std::time::Duration>>::.*$", "time"),
-    (r"^<std::time::Instant as std::ops::Sub>::sub$", "time"),
-    (r"^<std::time::Duration as std::ops::(Add|Sub|Mul<u32>|Div<u32>|AddAssign|SubAssign)>::.*$", "time"),
-    (r"^std::time::Duration::(from_secs_f32|from_secs_f64|mul_f32|mul_f64|div_f32|div_f64|new)$", "time"),
-    (r"^std::time::Instant::duration_since$", "none"),
-    (r"^(core|std)::cell::RefCell::<T>::(borrow|borrow_mut)$", "borrow"),
-    (r"^(alloc|std)::(slice::<impl \[T\]>|vec::Vec::<T, A>)::(concat|join|repeat)$", "alloc"),
-    (r"^std::sync::(Mutex|RwLock)::<T>::.*$", "none"),
-    (r"^(core|std)::array::<impl .*>::(map)$", "none"),
-    (r"^(core|std)::slice::<impl \[T\]>::(first_chunk|last_chunk)$", "none"),
-    (r"^std::collections::HashMap::<K, V, S, A>::(get_many_mut|get_disjoint_mut)$", "index"),
-    (r"^std::thread::(spawn|Builder::spawn)$", "none"),
-    (r"^tokio::.*::(block_on|unwrap)$", "none"),
+    (r"^alloc::vec::Vec::<T, A>::(remove|insert|swap_remove|drain|split_off|extend_from_within|splice)$", "index"),
+    (r"^alloc::collections::vec_deque::VecDeque::<T, A>::(remove|insert|swap|drain|split_off|range|range_mut)$", "index"),
+    (r"^alloc::string::String::(remove|insert|insert_str|drain|split_off|replace_range|truncate)$", "index"),
+    (r"^tinyvec::arrayvec::ArrayVec::<A>::(push|insert|remove|swap_remove|drain|split_off|extend_from_slice|set_len|resize|resize_with|splice|from_array_len)$", "index"),
+    (r"^tinyvec::tinyvec::TinyVec::<A>::(remove|swap_remove|drain|split_off|insert|splice)$", "index"),
+    (r"^<tinyvec::arrayvec::ArrayVec<A> as core::iter::traits::collect::(FromIterator|Extend)<.*>>::(from_iter|extend)$", "index"),
+    (r"iter::traits::iterator::Iterator(>)?::step_by$", "div"),
+    (r"^core::char::(from_digit)$", "explicit"),
+    (r"^core::num::<impl [a-z0-9]+>::(from_str_radix|pow|abs|div_euclid|rem_euclid|ilog|ilog2|ilog10|next_power_of_two|div_ceil|next_multiple_of|strict_.*)$", "arith"),
+    (r"^<std::time::(Instant|SystemTime) as core::ops::arith::(Add|Sub|AddAssign|SubAssign)<core::time::Duration>>::.*$", "time"),
+    (r"^<std::time::Instant as core::ops::arith::Sub>::sub$", "time"),
+    (r"^<core::time::Duration as core::ops::arith::(Add|Sub|Mul<u32>|Div<u32>|AddAssign|SubAssign)>::.*$", "time"),
+    (r"^core::time::Duration::(from_secs_f32|from_secs_f64|mul_f32|mul_f64|div_f32|div_f64|new)$", "time"),
+    (r"^<chrono::.* as core::ops::arith::(Add|Sub)<.*>>::(add|sub)$", "time"),
+    (r"^core::cell::RefCell::<T>::(borrow|borrow_mut)$", "borrow"),
+    (r"^std::collections::hash::map::HashMap::<K, V, S, A>::(get_many_mut|get_disjoint_mut)$", "index"),
 ]
 _PANIC_RE = [(re.compile(p), c) for p, c in PANIC_CALLEES]
 
@@ -67,7 +60,7 @@ EXCLUDED_CLASSES = {"none", "alloc", "borrow"}
 
 def classify_callee(name):
     for r, c in _PANIC_RE:
-        if r.match(name):
+        if r.search(name):
             return c
     return None
 
@@ -140,7 +133,7 @@ def upper_bound(t, depth=0):
         return None
     if k == "call":
         nm = t[1]
-        if nm.endswith("::min") or nm.endswith("::Ord::min") or "::cmp::min" in nm or "cmp::Ord::min" in nm:
+        if nm.endswith("::min") or "::cmp::min" in nm:
             bs = [upper_bound(a, depth + 1) for a in t[2]]
             c = [x for x in bs if x is not None]
             return min(c) if c else None
@@ -170,13 +163,13 @@ def range_bounds(t):
     if t[0] == "agg" and t[1][0] == "adt":
         nm = t[1][1]
         vals = [upper_bound(x) if x[0] in ("lit", "const") else None for x in t[2]]
-        if nm.endswith("ops::Range") and len(vals) == 2:
+        if nm.endswith("::Range") and len(vals) == 2:
             return ("range", vals[0], vals[1])
-        if nm.endswith("ops::RangeTo") and len(vals) == 1:
+        if nm.endswith("::RangeTo") and len(vals) == 1:
             return ("range", 0, vals[0])
-        if nm.endswith("ops::RangeFrom") and len(vals) == 1:
+        if nm.endswith("::RangeFrom") and len(vals) == 1:
             return ("from", vals[0], None)
-        if nm.endswith("ops::RangeInclusive"):
+        if nm.endswith("::RangeInclusive"):
             return None
     return None
 
@@ -422,9 +415,9 @@ def auto_discharge(F, s, cfg):
         # x[..] with RangeFull never panics
         for a in s.ops[1:]:
             o = body.origin(a)
-            if o[0] == "agg" and o[1][0] == "adt" and o[1][1].endswith("ops::RangeFull"):
+            if o[0] == "agg" and o[1][0] == "adt" and o[1][1].endswith("::RangeFull"):
                 return "RangeFull"
-            if o[0] == "lit" and o[2] and str(o[2]).endswith("ops::RangeFull"):
+            if o[0] == "lit" and o[2] and str(o[2]).endswith("::RangeFull"):
                 return "RangeFull"
         return None
     return None
